@@ -130,76 +130,7 @@ func Run(c *vlib.Ctx, cfg LedgerConfig, o RunOpts) RunStats {
 		go func(beh *Behaviour) {
 			defer wg.Done()
 			defer func() { <-sem }()
-			sim := NewSim(cfg.P)
-			if o.NewSim != nil {
-				o.NewSim(sim)
-			}
-			local := RunStats{Tags: map[string]int{}}
-			for i, step := range beh.Steps {
-				r, infra := sim.RunStep(i, step)
-				if infra != nil {
-					c.Infra("behaviour %s: %v", beh.Hash, infra)
-					return
-				}
-				local.Steps++
-				switch {
-				case step.Op == "revert":
-					local.Reverts++
-				case step.Verdict == "accept":
-					local.Accepted++
-				default:
-					local.Rejected++
-				}
-				for _, t := range step.Txs {
-					local.Txs++
-					local.Tags[fmt.Sprintf("v%d:%s", t.Ver, t.Tag)]++
-				}
-				if o.Hook != nil {
-					o.Hook(sim, beh, i, step, r)
-				}
-				stop := false
-				for _, m := range r.Mismatches {
-					stop = true
-					prop := Attribute(m, c.ID)
-					switch {
-					case prop == c.ID:
-						key := m.Kind + "/" + m.Tag
-						if o.KeyOf != nil {
-							key = o.KeyOf(m)
-						}
-						c.Violation(key, fmt.Sprintf("%s at step %d (%s): %s", m.Kind, m.Step, m.Tag, m.Detail),
-							map[string]any{"config": cfg, "behaviour": beh.Steps[:i+1], "mismatch": m})
-					case prop == "harness" || prop == "?":
-						c.Infra("behaviour %s step %d: unattributable mismatch %+v", beh.Hash, i, m)
-					default:
-						mu.Lock()
-						k := prop + ":" + m.Kind + "/" + m.Tag
-						if st.Foreign[k] == 0 || os.Getenv("VERIF_DEBUG") != "" {
-							fmt.Printf("NOTE: first %s: behaviour %s step %d: %s\n", k, beh.Hash, i, m.Detail)
-							if os.Getenv("VERIF_DEBUG") != "" {
-								js, _ := json.Marshal(beh.Steps[:i+1])
-								os.WriteFile("/verif/.work/debug-"+beh.Hash+".json", js, 0o644)
-							}
-						}
-						st.Foreign[k]++
-						mu.Unlock()
-					}
-				}
-				if stop {
-					break
-				}
-			}
-			mu.Lock()
-			st.Behaviours++
-			st.Steps += local.Steps
-			st.Accepted += local.Accepted
-			st.Rejected += local.Rejected
-			st.Reverts += local.Reverts
-			st.Txs += local.Txs
-			for k, v := range local.Tags {
-				st.Tags[k] += v
-			}
-			mu.Unlock()
+			runBehaviour(c, cfg.P, cfg, beh, o, &st, &mu)
 		}(&behs[bi])
 	}
 	wg.Wait()
@@ -211,6 +142,118 @@ func Run(c *vlib.Ctx, cfg LedgerConfig, o RunOpts) RunStats {
 		fmt.Printf("NOTE: %d mismatch(es) %s belong to another property's check and are not judged here\n", v, k)
 	}
 	return st
+}
+
+
+// runBehaviour replays one behaviour on a fresh chain, reporting mismatches as Run does.
+func runBehaviour(c *vlib.Ctx, p Params, cfgForPayload any, beh *Behaviour, o RunOpts, st *RunStats, mu *sync.Mutex) {
+	sim := NewSim(p)
+	if o.NewSim != nil {
+		o.NewSim(sim)
+	}
+	local := RunStats{Tags: map[string]int{}}
+	for i, step := range beh.Steps {
+		r, infra := sim.RunStep(i, step)
+		if infra != nil {
+			c.Infra("behaviour %s: %v", beh.Hash, infra)
+			return
+		}
+		local.Steps++
+		switch {
+		case step.Op == "revert":
+			local.Reverts++
+		case step.Verdict == "accept":
+			local.Accepted++
+		default:
+			local.Rejected++
+		}
+		for _, t := range step.Txs {
+			local.Txs++
+			local.Tags[fmt.Sprintf("v%d:%s", t.Ver, t.Tag)]++
+		}
+		if o.Hook != nil {
+			o.Hook(sim, beh, i, step, r)
+		}
+		stop := false
+		for _, m := range r.Mismatches {
+			stop = true
+			prop := Attribute(m, c.ID)
+			switch {
+			case prop == c.ID:
+				key := m.Kind + "/" + m.Tag
+				if o.KeyOf != nil {
+					key = o.KeyOf(m)
+				}
+				c.Violation(key, fmt.Sprintf("%s at step %d (%s): %s", m.Kind, m.Step, m.Tag, m.Detail),
+					map[string]any{"params": p, "config": cfgForPayload, "behaviour": beh.Steps[:i+1], "mismatch": m})
+			case prop == "harness" || prop == "?":
+				c.Infra("behaviour %s step %d: unattributable mismatch %+v", beh.Hash, i, m)
+			default:
+				mu.Lock()
+				k := prop + ":" + m.Kind + "/" + m.Tag
+				if st.Foreign[k] == 0 || os.Getenv("VERIF_DEBUG") != "" {
+					fmt.Printf("NOTE: first %s: behaviour %s step %d: %s\n", k, beh.Hash, i, m.Detail)
+					if os.Getenv("VERIF_DEBUG") != "" {
+						js, _ := json.Marshal(beh.Steps[:i+1])
+						os.WriteFile("/verif/.work/debug-"+beh.Hash+".json", js, 0o644)
+					}
+				}
+				st.Foreign[k]++
+				mu.Unlock()
+			}
+		}
+		if stop {
+			break
+		}
+	}
+	mu.Lock()
+	st.Behaviours++
+	st.Steps += local.Steps
+	st.Accepted += local.Accepted
+	st.Rejected += local.Rejected
+	st.Reverts += local.Reverts
+	st.Txs += local.Txs
+	for k, v := range local.Tags {
+		st.Tags[k] += v
+	}
+	mu.Unlock()
+}
+
+// Payload is what a hook should attach to a violation so that `--replay` can re-execute the behaviour.
+func Payload(sim *Sim, beh *Behaviour, i int) map[string]any {
+	return map[string]any{"params": sim.P, "behaviour": beh.Steps[:i+1]}
+}
+
+// Replay re-executes the behaviour saved in a replay file (c.Replay) with the same per-step logic and hooks as Run,
+// printing what the real code does now. It returns false if the file holds no behaviour.
+func Replay(c *vlib.Ctx, o RunOpts) bool {
+	b, err := os.ReadFile(c.Replay)
+	if err != nil {
+		c.Fatal("replay: %v", err)
+	}
+	var f struct {
+		Key  string `json:"key"`
+		What string `json:"what"`
+		Case struct {
+			Params    Params `json:"params"`
+			Behaviour []Step `json:"behaviour"`
+		} `json:"case"`
+	}
+	if err := json.Unmarshal(b, &f); err != nil {
+		c.Fatal("replay: %v", err)
+	}
+	if len(f.Case.Behaviour) == 0 {
+		return false
+	}
+	fmt.Printf("replaying %s: %d steps; required: %s must not happen\n", f.Key, len(f.Case.Behaviour), f.What)
+	st := RunStats{Tags: map[string]int{}, Foreign: map[string]int{}}
+	var mu sync.Mutex
+	beh := Behaviour{Steps: f.Case.Behaviour, Hash: "replay"}
+	runBehaviour(c, f.Case.Params, nil, &beh, o, &st, &mu)
+	if c.NViolations() == 0 {
+		fmt.Println("observed: the saved behaviour no longer violates the property on this tree")
+	}
+	return true
 }
 
 // ModelCheck runs TLC exhaustively on the configuration (design-level invariants of the Ledger model).
